@@ -56,6 +56,8 @@ class _Tunnel(Interface):
 
     __slots__ = (
         "_closing",
+        "_connecting",
+        "_lost_while_connecting",
         "_data_endpoint_addr",
         "_heartbeat",
         "_reconnect_task",
@@ -102,6 +104,9 @@ class _Tunnel(Interface):
         self._send_lock = asyncio.Lock()
         # set while the user disconnects - a tunnel lost meanwhile shall not reconnect
         self._closing = False
+        # set while connect() runs - a tunnel lost meanwhile fails that connect()
+        self._connecting = False
+        self._lost_while_connecting = False
 
         self._init_transport()
         self.transport.register_callback(
@@ -137,10 +142,16 @@ class _Tunnel(Interface):
         self.xknx.connection_manager.connection_state_changed(
             XknxConnectionState.CONNECTING, self.connection_type
         )
+        self._connecting = True
+        self._lost_while_connecting = False
         try:
             await self.transport.connect()
             await self.setup_tunnel()
             await self._connect_request()
+            if self._lost_while_connecting:
+                # eg. DisconnectRequest or connection lost right after the ConnectResponse
+                self.communication_channel = None
+                raise CommunicationError("Tunnel was closed while connecting")
         except (OSError, CommunicationError) as ex:
             logger.debug(
                 "Could not establish connection to KNX/IP interface. %s: %s",
@@ -155,6 +166,8 @@ class _Tunnel(Interface):
             raise CommunicationError(
                 "Tunnel connection could not be established"
             ) from ex
+        finally:
+            self._connecting = False
 
         self._tunnel_established()
         self.xknx.connection_manager.connection_state_changed(
@@ -169,6 +182,10 @@ class _Tunnel(Interface):
     def _tunnel_lost(self) -> None:
         """Prepare for reconnection or shutdown when the connection is lost. Callback."""
         if self._closing:
+            return
+        if self._connecting:
+            # handled by connect() when it resumes
+            self._lost_while_connecting = True
             return
         if self.auto_reconnect:
             # _tunnel_lost might be called multiple times when the transport receives
